@@ -208,8 +208,7 @@ theorem compareDatetime_swap (env : Env) (useTZ : Bool) (a b : DateTime) :
     compareDatetime env useTZ b a = (compareDatetime env useTZ a b).map negCmp := by
   cases a with | mk ka sa na oa => cases b with | mk kb sb nb ob =>
     cases ka <;> cases kb <;> cases useTZ <;>
-      simp [compareDatetime, Except.map, negCmp_compare, negCmp_timeTZ, negCmp_neg_timeTZ,
-        GoTime.compare_utc_left, GoTime.compare_utc_right] <;>
+      simp [compareDatetime, Except.map, negCmp_compare, negCmp_timeTZ, negCmp_neg_timeTZ] <;>
       first
         | rfl
         | exact (timeTZCompare_swap _ _).symm
@@ -817,16 +816,18 @@ theorem compare_equals_cast (env : Env) (a b : DateTime) (τ : DTKind)
   unfold DateOffsetOK at ha hb
   simp only at ha hb
   cases ka <;> cases kb <;> simp only [commonKind, Option.some.injEq, reduceCtorEq] at hτ <;> subst hτ <;>
-    simp only [compareAfterCast, castTo, bind, Except.bind, compareDatetime, if_true, dateToTimestamp,
-      dateToTimestampTZ, timestampToTimestampTZ, timeToTimeTZ, newTimestampTZ, newTimeTZ, mkDT]
+    simp only [compareAfterCast, castTo, bind, Except.bind, if_true] <;>
+    (conv => rhs; rw [compareDatetime_sameKind _ _ _ _ (by rfl)]) <;>
+    simp only [compareDatetime, if_true, if_false, reduceCtorEq]
   · -- date, timestamp
     obtain ⟨ho, hn⟩ := ha rfl; subst ho
+    simp only [dateToTimestamp]
     rw [newTimestamp_eq _ hn]; simp [DateTime.t, GoTime.compare]
   · -- time, timetz
-    simp only [DateTime.t]
-    exact (timeTZCompare_swap _ _).symm ▸ rfl
+    rw [timeTZCompare_swap]
   · -- timestamp, date
     obtain ⟨ho, hn⟩ := hb rfl; subst ho
+    simp only [dateToTimestamp]
     rw [newTimestamp_eq _ hn]; simp [DateTime.t, GoTime.compare]
 
 /-- the timestamp-vs-timestamptz instance, in the shape of phase 1: casting the timestamp first
